@@ -338,7 +338,7 @@ CFG = {
     "prop_file": "Properties/C20.v",
     "run_modules": ["Verif.C20.Run"],
     "coq_dirs": ["C20"],
-    "n": {"quick": 2400, "thorough": 200000},
+    "n": {"quick": 2400, "thorough": 60000},
     "shard": 400,
     "level": "proof",
     "shrink": False,
